@@ -27,6 +27,7 @@ import (
 	"strings"
 
 	"github.com/tuneinsight/lattigo/v6/circuits/ckks/bootstrapping"
+	"github.com/tuneinsight/lattigo/v6/circuits/ckks/mod1"
 )
 
 // ---------------------------------------------------------------- runtime value -> canonical text
@@ -327,5 +328,120 @@ func c18DefaultTable(c *Ctx) {
 	}
 	if os.Getenv("C18_PRINT_DEFAULTS") != "" {
 		fmt.Fprintf(os.Stderr, "def shippedDefaults : List ShippedDefault := [\n%s\n]\n", strings.Join(lean, ",\n"))
+	}
+}
+
+// ---------------------------------------------------------------- documented defaults of the optional literal fields
+
+// c18LiteralDefaults: for every Mod1Type, the Get…() of a literal whose optional fields are all nil (`literal_default`), the
+// `Default…` constants of parameters_literal.go read with go/ast (`literal_default_const`) and the "by default set to x" of the
+// doc comment of ParametersLiteral (`literal_default_doc`), all tied to the model's table `literalDefault` / `defaultConst` /
+// `defaultDoc` (lean/Lattigo/Model/BootstrapDefaults.lean).
+func c18LiteralDefaults(c *Ctx) {
+	iv := func(v int, err error) string {
+		if err != nil {
+			return "error"
+		}
+		return I(v)
+	}
+	shape := func(v [][]int, err error) string {
+		if err != nil {
+			return "error"
+		}
+		parts := make([]string, len(v))
+		for i := range v {
+			parts[i] = IVec(v[i])
+		}
+		return strings.Join(parts, "/")
+	}
+	for _, t := range []struct {
+		name string
+		t    mod1.Type
+	}{{"CosDiscrete", mod1.CosDiscrete}, {"SinContinuous", mod1.SinContinuous}, {"CosContinuous", mod1.CosContinuous}} {
+		lit := bootstrapping.ParametersLiteral{Mod1Type: t.t}
+		logSlots, err := lit.GetLogSlots()
+		vals := [][2]string{
+			{"LogN", I(lit.GetLogN())},
+			{"LogSlots", iv(logSlots, err)},
+			{"EvalModLogScale", iv(lit.GetEvalMod1LogScale())},
+			{"EphemeralSecretWeight", iv(lit.GetEphemeralSecretWeight())},
+			{"LogMessageRatio", iv(lit.GetLogMessageRatio())},
+			{"K", iv(lit.GetK())},
+			{"Mod1Degree", iv(lit.GetMod1Degree())},
+			{"DoubleAngle", iv(lit.GetDoubleAngle())},
+			{"Mod1InvDegree", iv(lit.GetMod1InvDegree())},
+			{"CoeffsToSlots", shape(lit.GetCoeffsToSlotsFactorizationDepthAndLogScales(15))},
+			{"SlotsToCoeffs", shape(lit.GetSlotsToCoeffsFactorizationDepthAndLogScales(15))},
+			{"Xs", c18Canon(reflect.ValueOf(lit.GetDefaultXs()))},
+		}
+		it, err := lit.GetIterationsParameters()
+		if err != nil {
+			vals = append(vals, [2]string{"IterationsParameters", "error"})
+		} else {
+			vals = append(vals, [2]string{"IterationsParameters", c18Canon(reflect.ValueOf(it))})
+		}
+		for _, v := range vals {
+			c.Emit(fmt.Sprintf("literal_default mod1type=%s field=%s", t.name, v[0]), v[1])
+			c.Count("literal_default")
+		}
+	}
+	// the source: constants and doc comment
+	fset := token.NewFileSet()
+	f, err := parser.ParseFile(fset, filepath.Join(repoPath(), "circuits/ckks/bootstrapping/parameters_literal.go"), nil, parser.ParseComments)
+	consts := map[string]string{}
+	doc := ""
+	if err == nil {
+		for _, d := range f.Decls {
+			gd, ok := d.(*ast.GenDecl)
+			if !ok {
+				continue
+			}
+			for _, sp := range gd.Specs {
+				switch x := sp.(type) {
+				case *ast.ValueSpec:
+					for i, n := range x.Names {
+						if strings.HasPrefix(n.Name, "Default") && i < len(x.Values) {
+							switch v := x.Values[i].(type) {
+							case *ast.BasicLit:
+								consts[n.Name] = v.Value
+							case *ast.SelectorExpr:
+								consts[n.Name] = v.Sel.Name
+							case *ast.CompositeLit:
+								consts[n.Name] = c18Elem(v, nil)
+							}
+						}
+					}
+				case *ast.TypeSpec:
+					if x.Name.Name == "ParametersLiteral" {
+						if x.Doc != nil {
+							doc = x.Doc.Text()
+						} else if gd.Doc != nil {
+							doc = gd.Doc.Text()
+						}
+					}
+				}
+			}
+		}
+	}
+	for _, n := range []string{"DefaultLogN", "DefaultCoeffsToSlotsFactorizationDepth", "DefaultSlotsToCoeffsFactorizationDepth", "DefaultCoeffsToSlotsLogScale",
+		"DefaultSlotsToCoeffsLogScale", "DefaultEvalModLogScale", "DefaultEphemeralSecretWeight", "DefaultIterations", "DefaultMod1Type", "DefaultLogMessageRatio",
+		"DefaultK", "DefaultMod1Degree", "DefaultDoubleAngle", "DefaultMod1InvDegree", "DefaultXs"} {
+		v, ok := consts[n]
+		if !ok {
+			v = "none"
+		}
+		c.Emit("literal_default_const name="+n, v)
+	}
+	re := regexp.MustCompile(`(?i)by default set to ([A-Za-z0-9.]+?)[.,]?(\s|\(|$)`)
+	for _, field := range []string{"EphemeralSecretWeight", "LogMessageRatio", "Mod1Type", "K", "Mod1Degree", "DoubleAngle", "Mod1InvDegree"} {
+		v := "none"
+		for _, line := range strings.Split(doc, "\n") {
+			if strings.HasPrefix(strings.TrimSpace(line), field+":") {
+				if m := re.FindStringSubmatch(line); m != nil {
+					v = m[1]
+				}
+			}
+		}
+		c.Emit("literal_default_doc field="+field, v)
 	}
 }
